@@ -1,7 +1,7 @@
 (** C29 — networks deliver every message exactly once with metadata intact.
     Property theorems only. *)
 From Coq Require Import Permutation.
-From Akita Require Import Lib.Base C30.Model C30.ProofsMesh C31.Model C29.Model C29.ProofsAcc C29.ProofsNet C29.ProofsMeshRank C29.ProofsMeshNet C29.ProofsTreeNet.
+From Akita Require Import Lib.Base C30.Model C30.ProofsMesh C30.ProofsFW C31.Model C29.Model C29.ProofsAcc C29.ProofsNet C29.ProofsMeshRank C29.ProofsMeshNet C29.ProofsTreeNet C29.ProofsTreeFW.
 
 (** Soundness of the acceptor that every real run is checked against: a trace of
     device-port events that it accepts satisfies, at every position, the
@@ -241,6 +241,81 @@ Proof.
   - intros v Hv. assert (C : v = 1 \/ v = 2 \/ v = 3 \/ v = 4 \/ v = 5) by lia.
     destruct C as [->|[->|[->|[->| ->]]]]; cbn; lia.
   - vm_compute. repeat split; reflexivity.
+Qed.
+
+(** * The tree routes ARE the routing tables the code computes
+
+    [g] is the graph handed to the Floyd–Warshall router (any node numbering —
+    the connector lists devices first, then switches), [lab] / [unlab] translate
+    its node indices to the tree's ([par v < v], root 0) and back, and the links
+    of [g] are exactly the tree links.  Then for every node [v] and every other
+    node [d] the table entry computed by C30's model of floydwarshall.go names,
+    through the recorded port, the neighbour [w] that is the next node of the
+    up-then-down tree route ([hopn]: the parent of [v] unless [v] is an ancestor of
+    [d], else the child of [v] on the path to [d]); the computed distance is the
+    length of that route; and the channel the tree network of
+    [c29_tree_delivery_progress] puts the packet on ([route]) leads to that same
+    node.  (No ties exist on a tree, so iteration order and the strict [<] of the
+    update cannot matter: this follows from c30_fw_shortest / c30_next_hop_descends
+    and the fact that exactly one neighbour is closer.) *)
+Theorem c29_tree_routes_are_c30_tables : forall n par g lab unlab t,
+  (forall v, 0 < v < n -> par v < v) ->
+  length g = n ->
+  (forall v, v < n -> lab v < n /\ unlab (lab v) = v) ->
+  (forall x, x < n -> unlab x < n /\ lab (unlab x) = x) ->
+  (forall v w, v < n -> (In w (nth v g []) <-> w < n /\ tadj par (lab v) (lab w))) ->
+  floyd_warshall g = Some t ->
+  forall v d, v < n -> d < n -> v <> d ->
+  exists p w, next t v d = Some (p, w) /\ nth_error (nth v g []) p = Some w /\ w < n /\
+    lab w = hopn n par (lab v) (lab d) /\
+    (exists k, rd n par (lab d) (lab v) k /\ dist t v d = k) /\
+    match route n par (lab v) (lab d) with
+    | Down c => c = lab w
+    | Up u => u = lab v /\ par u = lab w
+    | Ej _ => False
+    end.
+Proof.
+  intros n par g lab unlab t Hpar Hlen Hlab Hunlab Hadj Hfw v d Hv Hd Hne.
+  destruct (fw_next_is_tree_route n par Hpar g lab unlab Hlen Hlab Hunlab Hadj t Hfw v d Hv Hd Hne)
+    as [p [w [A [B [C [D E]]]]]].
+  exists p, w. split; [exact A|]. split; [exact B|]. split; [exact C|]. split; [exact D|]. split; [exact E|].
+  rewrite route_hopn. unfold hopn in *.
+  assert (Hl : (lab v =? lab d) = false).
+  { apply Nat.eqb_neq. intro Eq. apply Hne. rewrite <- (proj2 (Hlab v Hv)), <- (proj2 (Hlab d Hd)), Eq. reflexivity. }
+  rewrite Hl in *. destruct (anc n par (lab v) (lab d)); [symmetry; exact D|split; [reflexivity|symmetry; exact D]].
+Qed.
+Print Assumptions c29_tree_routes_are_c30_tables.
+
+(** The hypotheses are decidable for a concrete graph: [tree_certb] checks them. *)
+Theorem c29_tree_certificate_sound : forall n par g lab unlab, tree_certb n par g lab unlab = true ->
+  (forall v, 0 < v < n -> par v < v) /\ length g = n /\
+  (forall v, v < n -> lab v < n /\ unlab (lab v) = v) /\
+  (forall x, x < n -> unlab x < n /\ lab (unlab x) = x) /\
+  (forall v w, v < n -> (In w (nth v g []) <-> w < n /\ tadj par (lab v) (lab w))).
+Proof. exact tree_cert_sound. Qed.
+Print Assumptions c29_tree_certificate_sound.
+
+(** Non-vacuity on a network as the PCIe connector builds it (root complex with
+    the CPU, two switches below it, devices below those; the connector's node
+    list is devices 0-3, then switches 4-6): the certificate holds, and the
+    routes [EstablishRoute] stores are the tree routes. *)
+Example c29_tree_tables_nonvacuous :
+  let ops := [AddSwitch; ConnectDevice 0 1; AddSwitch; ConnectSwitches 0 1; ConnectDevice 1 1;
+              ConnectDevice 1 2; AddSwitch; ConnectSwitches 2 0; ConnectDevice 2 1] in
+  let c := fst (apply_ops conn_empty ops) in
+  let par := fun v => nth v [0; 0; 0; 0; 1; 1; 2] 0 in
+  let lab := fun v => nth v [3; 4; 5; 6; 0; 1; 2] 0 in
+  let unlab := fun v => nth v [4; 5; 6; 0; 1; 2; 3] 0 in
+  graph_of c = [[4]; [5]; [5]; [6]; [0; 5; 6]; [4; 1; 2]; [4; 3]] /\
+  tree_certb 7 par (graph_of c) lab unlab = true /\
+  establish_route c = Some [[0; 1; 1; 2]; [0; 1; 2; 0]; [0; 0; 0; 1]] /\
+  exists t, floyd_warshall (graph_of c) = Some t /\
+    forallb (fun v => forallb (fun d => (v =? d) ||
+       match next t v d with Some (_, w) => lab w =? hopn 7 par (lab v) (lab d) | None => false end)
+       (seq 0 7)) (seq 0 7) = true.
+Proof.
+  cbv zeta. split; [vm_compute; reflexivity|]. split; [vm_compute; reflexivity|]. split; [vm_compute; reflexivity|].
+  eexists. split; [vm_compute; reflexivity|]. vm_compute. reflexivity.
 Qed.
 
 (** Non-vacuity of the abstract theorems: a 3-channel line 0 -> 1 -> 2 -> device
